@@ -255,47 +255,41 @@ def npz_files(ctx):
     by_keys = {frozenset(s[1]): s for s in amp}
     restricted = next((s for s in amp if "ci1" in s[1]), None)
     unrestricted = next((s for s in amp if "ci1a" in s[1]), None)
-    # reader branches
-    branches = _trial_branches(rd)
+    # reader side, on the value graph of _prep_afqmc specialised to the trial kind: which npz keys are loaded and under
+    # which wave_data key each loaded array is stored
+    from ..symex import specialise, subterms as _sub2, const as _const2, getitem as _gi2, func_name as _fn2, call_parts as _cp2
+    _ev1, _R1, tr_t = _prep_specialised(p, rd)
     for kind, wsave in (("cisd", restricted), ("ucisd", unrestricted)):
-        br = branches.get(kind)
-        if br is None or wsave is None:
-            ctx.ob("KEYS-2", f"amplitudes.npz: branch for trial '{kind}' exists on both sides", False,
-                   "branch missing", rd)
+        if _R1 is None or tr_t is None or wsave is None:
+            if wsave is None:
+                ctx.ob("KEYS-2", f"amplitudes.npz: branch for trial '{kind}' exists on both sides", False,
+                       "the writer stores no amplitude file for this kind", rd)
+            else:
+                ctx.rep.note(f"_prep_afqmc: value graph not specialisable for trial '{kind}'; amplitude key rules not applicable")
             continue
-        # the variable bound to np.load("amplitudes.npz") in this branch, whatever it is called
-        amp_var = None
-        for nd in ast.walk(br):
-            if isinstance(nd, ast.Assign) and isinstance(nd.targets[0], ast.Name) and isinstance(nd.value, ast.Call) and \
-                    (dotted(nd.value.func) or "").endswith("load") and nd.value.args and \
-                    _str_const(nd.value.args[0]) == "amplitudes.npz":
-                amp_var = nd.targets[0].id
-        rk = set()
-        src_key: Dict[str, str] = {}       # local variable -> npz key it was loaded from
-        for nd in ast.walk(br):
-            if isinstance(nd, ast.Subscript) and isinstance(nd.value, ast.Name) and nd.value.id == amp_var:
-                k = _str_const(nd.slice)
-                if k:
-                    rk.add(k)
-            if isinstance(nd, ast.Assign) and isinstance(nd.targets[0], ast.Name):
-                ks = [_str_const(x.slice) for x in ast.walk(nd.value) if isinstance(x, ast.Subscript)
-                      and isinstance(x.value, ast.Name) and x.value.id == amp_var and _str_const(x.slice)]
-                if len(ks) == 1:
-                    src_key[nd.targets[0].id] = ks[0]
+        sp_wd = specialise(_gi2(_R1, _const2(4)), {tr_t: _const2(kind)})
+        ents = _dict_entries(sp_wd)
+
+        def npz_keys(v):
+            out = []
+            for x in _sub2(v):
+                if x.op == "getitem" and x.args[1].op == "const" and isinstance(x.args[1].args[0], str):
+                    b_ = strip_wrappers(x.args[0])
+                    if b_.op == "call" and (_fn2(b_) or "").endswith("load") and _cp2(b_)[1] and \
+                            _cp2(b_)[1][0].op == "const" and _cp2(b_)[1][0].args[0] == "amplitudes.npz":
+                        out.append(x.args[1].args[0])
+            return out
+        pairs = [(K, (npz_keys(V) or [None])[0]) for K, V in ents.items() if npz_keys(V)]
+        rk = {k_ for _, k_ in pairs}
+        if not pairs:
+            ctx.ob("KEYS-2", f"amplitudes.npz: branch for trial '{kind}' exists on both sides", False,
+                   "no array loaded from amplitudes.npz reaches wave_data for this kind", rd)
+            continue
         ctx.ob("KEYS-2", f"amplitudes.npz: arrays read for trial '{kind}' are the arrays written", bool(rk) and
                rk <= wsave[1], f"reads {sorted(rk)}; writer stores {sorted(wsave[1])}", rd)
-        # wave_data keys <-> npz keys: entry 'ci2AB' must carry the array loaded from 'ci2ab' (string keys, not variable names)
-        for nd in ast.walk(br):
-            if isinstance(nd, ast.Dict):
-                pairs = []
-                for k, v in zip(nd.keys, nd.values):
-                    if isinstance(k, ast.Constant) and isinstance(k.value, str) and k.value != "mo_coeff":
-                        pairs.append((k.value, src_key.get(v.id) if isinstance(v, ast.Name) else (
-                            next((_str_const(x.slice) for x in ast.walk(v) if isinstance(x, ast.Subscript)
-                                  and isinstance(x.value, ast.Name) and x.value.id == amp_var), None))))
-                badp = [f"{k} <- {v}" for k, v in pairs if v is None or k.lower() != v.lower()]
-                ctx.ob("KEYS-2", f"_prep_afqmc: wave_data entries of trial '{kind}' carry the arrays they are named for",
-                       not badp and bool(pairs), f"{pairs}", rd, nd.lineno)
+        badp = [f"{K} <- {k_}" for K, k_ in pairs if k_ is None or K.lower() != k_.lower()]
+        ctx.ob("KEYS-2", f"_prep_afqmc: wave_data entries of trial '{kind}' carry the arrays they are named for",
+               not badp, f"{pairs}", rd)
     amplitude_provenance(ctx)
 
 
@@ -377,61 +371,80 @@ def _trial_branches(rd) -> Dict[str, ast.AST]:
     return out
 
 
+def _prep_specialised(p, rd):
+    """(evaluator, result tuple, options['trial'] term): the value graph of _prep_afqmc, to be specialised per option"""
+    from ..symex import Evaluator as _Ev, const as _const, getitem as _gi
+    ev = _Ev(p)
+    R = ev.result(ev.eval_function(rd))
+    if R is None:
+        return ev, None, None
+    opts = _gi(R, _const(7))
+    tr = _gi(opts, _const("trial"))
+    if tr.op == "getitem" and tr.args[0] is opts:
+        tr = None
+    return ev, R, tr
+
+
+def _dict_entries(t) -> Dict[str, object]:
+    """string-keyed entries of a dict value: display entries and the stores / updates applied on top of it"""
+    from ..symex import strip_wrappers
+    out: Dict[str, object] = {}
+    chain = []
+    t = strip_wrappers(t)
+    while t.op == "setitem":
+        chain.append((t.args[1], t.args[2]))
+        t = strip_wrappers(t.args[0])
+    if t.op == "dict":
+        for j in range(0, len(t.args) - 1, 2):
+            if t.args[j].op == "const" and isinstance(t.args[j].args[0], str):
+                out[t.args[j].args[0]] = t.args[j + 1]
+    for k, v in reversed(chain):
+        if k.op == "const" and isinstance(k.args[0], str):
+            out[k.args[0]] = v
+    return out
+
+
 def trial_dispatch(ctx):
+    """Decided on the value graph of _prep_afqmc specialised to each documented value of options['trial'] (the dispatch
+    may be an if-chain in any order, a table, guard clauses ...): which class is constructed and which wave_data keys
+    are provided."""
+    from ..symex import specialise, subterms as _sub, const as _const, getitem as _gi
     p = ctx.p
     rd = p.func("mpi_jax._prep_afqmc")
     ka = keys.key_analysis(p)
-    br = _trial_branches(rd)
-    # roles of the locals by their position in the returned tuple
-    # (ham_data, ham, prop, trial, wave_data, sampler, observable, options, MPI)
-    from ..model import returned_values
-    rets = [v_ for _, v_ in returned_values(rd.node, top_level_only=True)]
-    if not rets or not isinstance(rets[-1], ast.Tuple) or len(rets[-1].elts) != 9 or not all(
-            isinstance(e_, ast.Name) for e_ in rets[-1].elts):
+    _ev0, _R0, tr_t = _prep_specialised(p, rd)
+    if _R0 is None or _R0.op != "tuple" or len(_R0.args) != 9:
         raise AnalysisError("_prep_afqmc does not return the 9-tuple (ham_data, ham, prop, trial, wave_data, ...)")
-    rnames = [e_.id for e_ in rets[-1].elts]
-    prop_name, trial_name, wd_name = rnames[2], rnames[3], rnames[4]
     documented = ["rhf", "uhf", "noci", "cisd", "ucisd"]
     methods = ["_calc_overlap", "_calc_overlap_restricted", "_calc_force_bias", "_calc_force_bias_restricted",
                "_calc_energy", "_calc_energy_restricted", "_build_measurement_intermediates", "optimize"]
+    if tr_t is None:
+        ctx.rep.note("_prep_afqmc: options['trial'] not identified in the value graph; trial dispatch rules not applicable")
+        documented = []
     for kind in documented:
-        b = br.get(kind)
-        if b is None:
-            ctx.ob("KEYS-1", f"_prep_afqmc: documented trial '{kind}' has a branch", False, "no branch", rd)
+        sp_trial = specialise(_gi(_R0, _const(3)), {tr_t: _const(kind)})
+        made = sorted({x.args[0].args[0] for x in _sub(sp_trial) if x.op == "call" and x.args[0].op == "cls"
+                       and x.args[0].args[0].startswith("wavefunctions.")})
+        if not made:
+            ctx.ob("KEYS-1", f"_prep_afqmc: documented trial '{kind}' has a branch", False,
+                   "no trial class is constructed for this value", rd)
             continue
-        cls = None
-        for nd in ast.walk(b):
-            if isinstance(nd, ast.Assign) and isinstance(nd.targets[0], ast.Name) and nd.targets[0].id == trial_name \
-                    and isinstance(nd.value, ast.Call):
-                dn = dotted(nd.value.func) or ""
-                if dn.startswith("wavefunctions."):
-                    cls = dn
+        cls = made[0] if len(made) == 1 else None
         ok_cls = cls == f"wavefunctions.{kind}"
         ctx.ob("KEYS-1", f"_prep_afqmc: options['trial'] == '{kind}' constructs wavefunctions.{kind}", ok_cls,
-               f"constructs {cls}", rd)
+               f"constructs {made}", rd)
         if not ok_cls:
             continue
-        written = {"rdm1"}
-        for nd in ast.walk(b):
-            if isinstance(nd, ast.Assign) and isinstance(nd.targets[0], ast.Subscript) and \
-                    isinstance(nd.targets[0].value, ast.Name) and nd.targets[0].value.id == wd_name:
-                k = _str_const(nd.targets[0].slice)
-                if k:
-                    written.add(k)
-            if isinstance(nd, ast.Dict):
-                for k in nd.keys:
-                    if isinstance(k, ast.Constant) and isinstance(k.value, str):
-                        written.add(k.value)
+        sp_wd = specialise(_gi(_R0, _const(4)), {tr_t: _const(kind)})
+        written = set(_dict_entries(sp_wd))
         need = set(keys.reads_of(ka, cls, methods, "wave_data"))
         missing = sorted(need - written)
         ctx.ob("KEYS-1", f"_prep_afqmc: wave_data assembled for '{kind}' has every key that class reads",
                not missing, f"class reads {sorted(need)}; branch provides {sorted(written)}" +
                (f"; missing {missing}" if missing else ""), rd)
+    _R = _R0
     # walker types: the propagator class the returned `prop` is an instance of when options['walker_type'] has the given
     # value, read off the value graph (the choice may be an if-chain, a class variable, a table ...)
-    from ..symex import Evaluator as _Ev, specialise, subterms as _sub, const as _const, getitem as _gi
-    _ev = _Ev(p)
-    _R = _ev.result(_ev.eval_function(rd))
     prop_t = _gi(_R, _const(2)) if _R is not None else None
     opts_t = _gi(_R, _const(7)) if _R is not None else None
     wt_t = _gi(opts_t, _const("walker_type")) if opts_t is not None else None
